@@ -11,7 +11,7 @@ META = {
             'of the NFA against the derivative automaton of the expression). DFA->regexp: all DFAs with <=2 states over {a,b}, random '
             'DFAs with 1-5 states (states named start/accept included); the model is run with the elimination order the implementation '
             'used; the extracted expression is checked against the DFA by exact product BFS (derivative automaton), under 2-8 hash '
-            'seeds (= elimination orders); non-trivial = expression with a star / DFA with >=2 reachable states and a cycle; distinct by content',
+            'seeds (= elimination orders); non-trivial = expression with a star / DFA with >=2 reachable states and a cycle; distinct by content; also DFAs whose states are called start / accept / start1 / accept1 / wait; on a mismatch with the model for the observed elimination order every permutation of the states is tried (the theorem covers every order)',
     'assumptions': ['single-character symbols; DFA.valid'],
     'trusted_base': ['Spec: Gamba/Spec/Regexp.lean, Gamba/Spec/Automata.lean'],
 }
